@@ -229,6 +229,11 @@ class ContainerCodec(Codec):
                     if isinstance(k, tuple):
                         msg = "Tuple keys not supported"
                         raise SerDesError(msg)
+                    if not isinstance(k, str):
+                        # JSON object keys are strings and the decoder cannot restore the key type:
+                        # {1: ...} would silently come back as {"1": ...}
+                        msg = f"Only string keys are supported in dicts, got {type(k)!r}"
+                        raise SerDesError(msg)
                 return EncodedValue(
                     TypeTag.DICT,
                     {k: self._wrap(v, self.dispatcher) for k, v in obj.items()},
